@@ -22,9 +22,10 @@ import (
 
 // TxSpec describes one member of the transaction universe.
 type TxSpec struct {
-	Payer     int   `json:"payer"`     // ordinary payer 0..2, or depositor 0..1 when Sponsored
-	Sponsored bool  `json:"sponsored"` // sender = Notary, second signer = depositor
-	Shared    bool  `json:"shared"`    // carries the shared co-signer (makes Conflicts admissible)
+	Payer     int   `json:"payer"`            // ordinary payer 0..2, or depositor 0..1 when Sponsored
+	Sponsored bool  `json:"sponsored"`        // sender = Notary, second signer = depositor
+	Shared    bool  `json:"shared"`           // carries the shared co-signer (makes Conflicts admissible)
+	CoSign    int   `json:"cosign,omitempty"` // 1..3: ordinary payer CoSign-1 signs as well (without paying) unless it is the sender
 	SysFee    int64 `json:"sys"`
 	FeeK      int64 `json:"k"` // network fee = size*K + R  => FeePerByte = K
 	FeeR      int64 `json:"r"`
@@ -75,6 +76,9 @@ func (Engine) Draw(rt *rapid.T, prop, tier string) any {
 			s.Payer = rapid.IntRange(0, 2).Draw(rt, "payer")
 		}
 		s.Shared = rapid.IntRange(0, 2).Draw(rt, "shared") != 0
+		if rapid.IntRange(0, 2).Draw(rt, "cosigned") == 0 {
+			s.CoSign = rapid.IntRange(1, 3).Draw(rt, "cosign")
+		}
 		s.SysFee = int64(rapid.IntRange(0, 300).Draw(rt, "sys"))
 		s.FeeK = int64(rapid.IntRange(0, 3).Draw(rt, "k"))
 		s.FeeR = int64(rapid.IntRange(0, 40).Draw(rt, "r"))
@@ -281,6 +285,9 @@ func (Engine) Run(t *testing.T, prop string, planAny any) *sim.Outcome {
 		}
 		if s.Shared {
 			tx.Signers = append(tx.Signers, transaction.Signer{Account: shared})
+		}
+		if s.CoSign >= 1 && s.CoSign <= 3 && !tx.HasSigner(f.ord[s.CoSign-1]) {
+			tx.Signers = append(tx.Signers, transaction.Signer{Account: f.ord[s.CoSign-1]})
 		}
 		if s.High {
 			tx.Attributes = append(tx.Attributes, transaction.Attribute{Type: transaction.HighPriority})
